@@ -69,4 +69,8 @@ def c05 (kind : String) (f : Fields) : String :=
     | _, _, _ => "bad-case"
   | _ => "bad-kind"
 
+/-- case kinds served by this module. -/
+def handlersC05 : List (String × (Fields → String)) :=
+  ["rawpack", "rawunpack", "rawstream"].map (fun k => (k, c05 k))
+
 end Teleport.Drv
